@@ -141,14 +141,20 @@ class Quad(Case):
                 V = np.asarray(evaluate_basis(basis, pts)).view(np.ndarray)
             elif what == "kinetic":
                 D = [np.asarray(evaluate_deriv_basis(basis, pts, np.array(o))).view(np.ndarray) for o in ([1, 0, 0], [0, 1, 0], [0, 0, 1])]
-            elif what == "density":
-                V = np.asarray(evaluate_basis(basis, pts)).view(np.ndarray)
-                rho = np.asarray(evaluate_density_using_evaluated_orbs(mk.array(I["P"]), mk.array(V) if mk.symbolic else V)).view(np.ndarray)
-            elif what == "ked":
-                rho = None
-                for o in ([1, 0, 0], [0, 1, 0], [0, 0, 1]):
-                    r = np.asarray(evaluate_deriv_reduced_density_matrix(np.array(o), np.array(o), mk.array(I["P"]), basis, pts)).view(np.ndarray)
-                    rho = r if rho is None else rho + r
+            elif what in ("density", "ked"):
+                # the integral is linear in P: one quadrature per shell pair with P restricted to that pair's blocks
+                # (a symmetric matrix with zero diagonal blocks when i != j), so that one Gaussian product is left
+                Pm = [[I["P"][r][c] if ((offs[i] <= r < offs[i + 1] and offs[j] <= c < offs[j + 1])
+                                         or (offs[j] <= r < offs[j + 1] and offs[i] <= c < offs[i + 1])) else ops.zero
+                       for c in range(N)] for r in range(N)]
+                if what == "density":
+                    V = np.asarray(evaluate_basis(basis, pts)).view(np.ndarray)
+                    rho = np.asarray(evaluate_density_using_evaluated_orbs(mk.array(Pm), mk.array(V) if mk.symbolic else V)).view(np.ndarray)
+                else:
+                    rho = None
+                    for o in ([1, 0, 0], [0, 1, 0], [0, 0, 1]):
+                        r = np.asarray(evaluate_deriv_reduced_density_matrix(np.array(o), np.array(o), mk.array(Pm), basis, pts)).view(np.ndarray)
+                        rho = r if rho is None else rho + r
             for k, t in enumerate(nodes):
                 w = w1[t[0]] * w1[t[1]] * w1[t[2]]
                 if what in ("density", "ked"):
@@ -215,6 +221,9 @@ def cases(tier, seed=0):
     out.append(Quad(what="kinetic", ls=[1], types="s", Ms=[1]))
     out.append(Quad(what="density", ls=[1], types="c", Ms=[1]))
     out.append(Quad(what="ked", ls=[1], types="c", Ms=[1]))
+    # two centres: the cross terms of the density (off-diagonal overlaps) contribute to the integral
+    out.append(Quad(what="density", ls=[0, 0], types="cc", Ms=[2, 1]))
+    out.append(Quad(what="density", ls=[0, 1], types="cc", Ms=[1, 1]))
     if tier == "thorough":
         out.append(Quad(what="overlap", ls=[2, 1], types="sc", Ms=[1, 1]))
         out.append(Quad(what="overlap", ls=[2, 2], types="cs", Ms=[1, 1]))
